@@ -39,8 +39,48 @@ func verifCtx(db int) context.Context {
 // verifPreset stores value under key in database db through setValues (+ setExpiry when a
 // deadline is given), exactly as the repo's test helper presetValue does.
 func verifPreset(s *SugarDB, db int, key string, value interface{}) {
+	verifHistory(s, db, key)
 	if err := s.setValues(verifCtx(db), map[string]interface{}{key: value}); err != nil {
 		panic("verif: preset failed")
+	}
+}
+
+// verifPresets counts the pre-state installations of one harness run; gNoHistory switches the
+// history variants off for harnesses whose subject is the bookkeeping itself.
+var (
+	verifPresets int
+	gNoHistory   bool
+)
+
+// verifHistory (thorough tier): the same abstract pre-state reached through different histories of the
+// key, so that bookkeeping that depends on the past (volatile-key index, eviction lists, accounted
+// memory) is whatever the real code left behind - the first key a harness installs was, by a named
+// choice, never seen before / held a value of another type that was deleted / held a longer value
+// that is now overwritten / had a deadline that was cleared again.
+func verifHistory(s *SugarDB, db int, key string) {
+	verifPresets++
+	if vr.Tier() == 0 || gNoHistory || verifPresets != 1 {
+		return
+	}
+	ctx := verifCtx(db)
+	switch vr.Choose("history", 4) {
+	case 1:
+		if err := s.setValues(ctx, map[string]interface{}{key: []string{"old", "list"}}); err != nil {
+			panic("verif: history failed")
+		}
+		s.storeLock.Lock()
+		_ = s.deleteKey(ctx, key)
+		s.storeLock.Unlock()
+	case 2:
+		if err := s.setValues(ctx, map[string]interface{}{key: "an older and longer value"}); err != nil {
+			panic("verif: history failed")
+		}
+	case 3:
+		if err := s.setValues(ctx, map[string]interface{}{key: "volatile once"}); err != nil {
+			panic("verif: history failed")
+		}
+		s.setExpiry(ctx, key, time.UnixMilli(4_000_000_000_000), false)
+		s.setExpiry(ctx, key, time.Time{}, false)
 	}
 }
 
